@@ -226,7 +226,7 @@ Section TabProofs.
         as [st3 [m3 [E3 [HR3 Hm3]]]].
       rewrite E3. rewrite (utf8_valid_ascii _ (ascii_take_line src2 Ha2)).
       exists st3, m3. cbn [fst snd]. unfold w_tab_tail.
-      split; [destruct (take_line LF src2); reflexivity|]. split; [exact HR3|]. split; [lia|].
+      split; [reflexivity|]. split; [exact HR3|]. split; [lia|].
       rewrite skipn_length. lia.
   Qed.
 End TabProofs.
